@@ -190,6 +190,20 @@ class OptMonitor:
         biomolecule.Biomolecule.apply_patch = apply_patch
         self._undo.append(lambda: setattr(biomolecule.Biomolecule, "apply_patch", orig_patch))
 
+        from pdb2pqr import main as pmain
+
+        orig_gate = pmain.is_repairable
+        mon.gate = None
+
+        def gate(biomolecule_, has_ligand):
+            counts = (biomolecule_.num_heavy, biomolecule_.num_missing_heavy)
+            ret = orig_gate(biomolecule_, has_ligand)
+            mon.gate = {"heavy": counts[0], "missing": counts[1], "ret": bool(ret)}
+            return ret
+
+        pmain.is_repairable = gate
+        self._undo.append(lambda: setattr(pmain, "is_repairable", orig_gate))
+
         orig_remove = residue.Residue.remove_atom
 
         def remove_atom(self_, atomname):
@@ -632,8 +646,17 @@ def oracle(ctx: Ctx, m: OptMonitor, text, opts, run):
             kind = "missing-atom" if missing else "extra-atom"
             atom = (missing or extra)[0]
             sig = {"kind": kind, "residue": res.name, "ffname": ff, "pos": pos, "atom": atom}
-            if pos == "NC" and missing == ["OXT"] and not extra:
-                sig = {"kind": "missing-atom", "pos": "NC", "atom": "OXT", "cause": "repair-skipped"}
+            # known finding: when more than a tenth of the heavy atoms are missing is_repairable logs an error and
+            # returns False instead of raising; repair_heavy is skipped and the run goes on with the heavy atoms the
+            # INPUT lacked (and the hydrogens that hang on them) still missing. Identified by: the gate refused this
+            # structure as over the limit (counts taken by the harness), nothing extra, and every missing heavy atom
+            # was already absent from the input residue.
+            g = getattr(m, "gate", None)
+            refused = g is not None and not g["ret"] and g["heavy"] > 0 and 10 * g["missing"] > g["heavy"]
+            input_names = {l[12:16].strip() for l in text.splitlines() if l.startswith(("ATOM", "HETATM")) and l[21:22].strip() == (res.chain_id or "").strip() and l[22:26].strip() == str(res.res_seq) and l[26:27].strip() == (res.ins_code or "").strip()}
+            heavy_missing = [n for n in missing if not n.startswith("H")]
+            if refused and not extra and heavy_missing and all(n not in input_names for n in heavy_missing):
+                sig = {"kind": "missing-atom", "cause": "repair-skipped"}
             out.append((sig, f"{res} ({ff}): missing {missing}, extra {extra} against its reference"))
     # (b) input heavy atoms
     recs = altloc_first([l for l in text.splitlines() if l.startswith(("ATOM", "HETATM"))])
